@@ -247,16 +247,19 @@ def _pairs(n, out):
 def grouping(n):
     """A parent/child pair (pre-order) for which Modelica needs parentheses round the child, as `parent:child:side`
     -- the first one whose parentheses matter for the value if there is one; None if the minimal text has no
-    parentheses of its own."""
+    parentheses of its own.  A child that is a sign applied directly to a numeric literal is named `signed-literal`
+    (a printer may treat that as a literal of its own)."""
     ps = _pairs(n, [])
     for p in ps:
-        if p not in _HARMLESS:
+        if p.replace("signed-literal", "neg") not in _HARMLESS:
             return p
     return ps[0] if ps else None
 
 
 def _opname(n):
-    return "neg" if n[0] == "un" else n[1] if n[0] == "bin" else n[0]
+    if n[0] == "un":
+        return "signed-literal" if n[2][0] == "num" else "neg"
+    return n[1] if n[0] == "bin" else n[0]
 
 
 PACK = 16
@@ -309,10 +312,13 @@ def _nleaves(t):
     return _nleaves(t[2]) + _nleaves(t[3])
 
 
-def expr_model(items):
+def expr_model(items, fam="expr"):
     """items: [(tree, mode, orient)], all of one mode.  First three defined quantities are der(x), y, v so that the
-    frame has a variable of every classification in every model; the rest are fresh algebraic variables."""
+    frame has a variable of every classification in every model; the rest are fresh algebraic variables.
+    fam 'lit': one more parameter, n, whose grid values are integers (so that a negative base has a real power)."""
     decls = base_decls()
+    if fam == "lit":
+        decls.append(Decl("n", prefix="parameter", value=N(2)))
     eqs = []
     for j, (t, mode, orient) in enumerate(items):
         if j == 0:
@@ -329,7 +335,87 @@ def expr_model(items):
     if not any("x" in (ders(e[1]) | ders(e[2])) for e in eqs):
         decls.append(Decl("w_s"))
         eqs.append(("eq", ("der", V("x")), V("w_s")))
-    return SModel(decls, eqs, mode=items[0][1])
+    m = SModel(decls, eqs, mode=items[0][1])
+    if fam == "lit":
+        m.ints = ("n",)
+    return m
+
+
+# ---------------------------------------------------------------------------------------------------------
+# family `lit`: numeric literals (bare and signed) in every operand position
+
+LIT_LEAVES = [V("p"), V("n"), N(2), N("0.5")]  # real-valued variable, integer-valued variable, integer and real literal
+LIT_UN = ["-", "+"]
+
+
+def gen_lit(n, memo):
+    """All trees with exactly n operator nodes over binary + - * / ^ and unary - +, every leaf position taking every
+    element of LIT_LEAVES (so a literal, and a sign applied directly to a literal, is met as base and as exponent of
+    ^, as left and right operand of - and /, ...)."""
+    if n in memo:
+        return memo[n]
+    if n == 0:
+        out = list(LIT_LEAVES)
+    else:
+        out = [("un", sg, t) for sg in LIT_UN for t in gen_lit(n - 1, memo)]
+        for i in range(n):
+            ls, rs = gen_lit(i, memo), gen_lit(n - 1 - i, memo)
+            for op in BINOPS:
+                out += [("bin", op, l, r) for l in ls for r in rs]
+    memo[n] = out
+    return out
+
+
+def consts_defined(t):
+    """False if some literal-only sub-expression has no real finite value (2 / (2 - 2), (-2) ^ 0.5): Python would
+    raise / go complex while the module is constructed, and the model means nothing in Modelica either."""
+
+    def rec(n):  # -> is n literal-only
+        k = n[0]
+        if k == "num":
+            return True
+        if k == "un":
+            return rec(n[2])
+        if k == "bin":
+            l, r = rec(n[2]), rec(n[3])
+            if l and r:
+                M.evn(n, {})
+                return True
+        return False
+
+    try:
+        rec(t)
+        return True
+    except X.Undefined:
+        return False
+
+
+def has_literal(n):
+    k = n[0]
+    if k == "num":
+        return True
+    if k == "un":
+        return has_literal(n[2])
+    if k == "bin":
+        return has_literal(n[2]) or has_literal(n[3])
+    return False
+
+
+def lit_cases(tier):
+    """-> ([(tree, mode, orient)], max operator nodes, number of trees left out by consts_defined)"""
+    nmax = 2 if tier == "quick" else 3
+    memo = {}
+    cases, skipped = [], 0
+    for n in range(0, nmax + 1):
+        for t in gen_lit(n, memo):
+            if not consts_defined(t):
+                skipped += 1
+                continue
+            for mode in ("min", "full"):
+                cases.append((t, mode, "rhs"))
+                if n <= 1:
+                    cases.append((t, mode, "lhs"))
+    return cases, nmax, skipped
 
 
 # ---------------------------------------------------------------------------------------------------------
@@ -496,20 +582,164 @@ def struct_cases(tier):
 
 
 # ---------------------------------------------------------------------------------------------------------
+# family `mangle`: a systematic set of flat names several of which become the same Python identifier
+
+
+def preimages(ident):
+    """Every Modelica name (plain or dotted, any depth) that replacing '.' by '__' turns into `ident`."""
+    out = []
+
+    def rec(i, cur):
+        if i == len(ident):
+            if all(seg and not seg[0].isdigit() for seg in cur.split(".")):
+                out.append(cur)
+            return
+        if ident.startswith("__", i):
+            rec(i + 2, cur + ".")
+        rec(i + 1, cur + ident[i])
+
+    rec(0, "")
+    return out
+
+
+MANGLE_TARGETS = ["a__b", "a__b_", "a___b", "a__b__c", "a__b__", "a__b__c_"]  # the last two: thorough only
+RESERVED_BASES = ["print", "t", "super"]  # a builtin, the time symbol, a builtin the generated module calls
+CATS_TOP = ["x", "v", "p", "c", "u", "y"]
+CATS_MEMBER = ["x", "v", "p", "c"]  # a component member is not an input / output of the flat model
+
+
+def mangle_universe(tier):
+    targets = MANGLE_TARGETS[:4] if tier == "quick" else MANGLE_TARGETS
+    names = [n for t in targets for n in preimages(t)]
+    for r in RESERVED_BASES:
+        names += [r, r + "_"] + ([r + "__"] if tier != "quick" else [])
+    assert len(set(names)) == len(names)
+    return names
+
+
+def _cats(name):
+    return CATS_MEMBER if "." in name else CATS_TOP
+
+
+def _compatible(names):
+    """No name is a component on the path of another (a.b next to a.b.c, a__b next to a__b.c)."""
+    return not any(a != b and b.startswith(a + ".") for a in names for b in names)
+
+
+def related(names):
+    """All of them come out as the same identifier up to trailing underscores, i.e. they compete for one name."""
+    return len({key(n) for n in names}) == 1
+
+
+def mangle_cases(tier):
+    """[((name, category), ...)]: every name alone in every category; every pair of names (competing pairs, thorough:
+    all pairs, in every combination of categories, the others in one rotating combination); every triple of competing
+    names in every combination of categories (thorough: every other triple in one rotating combination)."""
+    names = mangle_universe(tier)
+    out = []
+    idx = 0
+    for k in (1, 2, 3):
+        for combo in itertools.combinations(names, k):
+            if not _compatible(combo):
+                continue
+            rel = related(combo)
+            if k == 3 and tier == "quick" and not rel:
+                continue
+            if k == 1 or rel or (k == 2 and tier != "quick"):
+                for cats in itertools.product(*[_cats(n) for n in combo]):
+                    out.append(tuple(zip(combo, cats)))
+            else:
+                cats = [_cats(n)[(idx + j) % len(_cats(n))] for j, n in enumerate(combo)]
+                out.append(tuple(zip(combo, cats)))
+            idx += 1
+    return out, names
+
+
+def _lin(allv, k):
+    """left-nested sum of coefficient * variable, coefficients rotated by k: no parentheses are needed anywhere"""
+    e = None
+    for i, v in enumerate(allv):
+        term = B("*", N(COEF[(i + k) % len(COEF)]), v)
+        e = term if e is None else B("+" if (i + k) % 3 else "-", e, term)
+    return e
+
+
+def _decl(name, cat):
+    if cat == "p":
+        return Decl(name, prefix="parameter", value=N(2.5))
+    if cat == "c":
+        return Decl(name, prefix="constant", value=N(3))
+    return Decl(name, prefix={"u": "input", "y": "output"}.get(cat, ""))
+
+
+class TModel(SModel):
+    """A model that has exactly the given flat variables [(flat name, category)] (+ a frame x p u y): dotted names
+    become members of (nested) components, one class per component instance; all equations are at the top level."""
+
+    FRAME = (("x", "x"), ("p", "p"), ("u", "u"), ("y", "y"))
+
+    def __init__(self, spec):
+        self.spec = [tuple(i) for i in spec]
+        allspec = list(self.FRAME) + self.spec
+        allv = [V(n) for n, _ in allspec] + [V("time")]
+        eqs = []
+        for n, cat in allspec:
+            if cat == "x":
+                eqs.append(("eq", ("der", V(n)), _lin(allv, len(eqs))))
+            elif cat in "vy":
+                eqs.append(("eq", V(n), _lin(allv, len(eqs))))
+        SModel.__init__(self, [], eqs)
+        self.allspec = allspec
+
+    def text(self):
+        root = {"vars": [], "comps": {}}
+        for n, cat in self.allspec:
+            segs = n.split(".")
+            node = root
+            for sg in segs[:-1]:
+                node = node["comps"].setdefault(sg, {"vars": [], "comps": {}})
+            node["vars"].append(_decl(segs[-1], cat))
+        out, cnt = [], [0]
+
+        def emit(node, cname):
+            body = ["  " + d.text() for d in node["vars"]]
+            for inst, sub in node["comps"].items():
+                cnt[0] += 1
+                sub_name = "K%d" % cnt[0]
+                emit(sub, sub_name)
+                body.append("  %s %s;" % (sub_name, inst))
+            if cname == self.name:
+                body.append("equation")
+                body += ["  %s = %s;" % (M.pe(e[1]), M.pe(e[2])) for e in self.eqs]
+            out.append("\n".join(["model " + cname] + body + ["end %s;" % cname]) + "\n")
+
+        emit(root, self.name)
+        return "\n".join(out)
+
+    def flat(self):
+        pre = {"p": "parameter", "c": "constant", "u": "input", "y": "output"}
+        return [(n, pre.get(cat, "")) for n, cat in self.allspec], list(self.eqs)
+
+
+# ---------------------------------------------------------------------------------------------------------
 # running the real generator and looking at what it made
 
 POS = [1.75, 0.75, 2.25, 1.25, 2.75, 0.5, 3.25, 1.5, 0.25, 3.75, 2.5, 4.25, 1.125, 0.625, 2.125, 3.5]
 MIX = [2.5, -1.5, 3.25, 0.75, -2.25, 1.75, 4.5, -0.5, 5.5, -3.75, 6.25, 0.25, -4.25, 7.5, 1.25, -5.75]
 
 
-def grid_env(names, point, seed):
+INTS = [2, 3, -2, 4]
+
+
+def grid_env(names, point, seed, ints=()):
     """Distinct non-integer value per variable and per derivative; point 0 all positive (every power is real),
-    other points both signs.  The seed only rotates which variable gets which value."""
+    other points both signs.  The seed only rotates which variable gets which value.  Names in `ints` get an integer
+    (even at point 0, then odd, negative, even), so that a negative base raised to them is real."""
     tab = POS if point == 0 else MIX
     k = (point * 5 + seed * 3) % len(tab)
     env = {}
     for i, n in enumerate(names):
-        env[n] = tab[(k + i) % len(tab)]
+        env[n] = INTS[point % len(INTS)] if n in ints else tab[(k + i) % len(tab)]
         env["der(%s)" % n] = tab[(k + i + 7) % len(tab)] * 0.5 + 0.0625
     env["time"] = 0.375 + 0.5 * point
     return env
@@ -608,6 +838,10 @@ def collision_kind(a, b):
     a, b = sorted((a, b), key=len)
     if ("." in a) != ("." in b) and a.replace(".", "__") == b.replace(".", "__"):
         return "dotted-vs-double-underscore"
+    if "." in a and "." in b:
+        return "dotted-names-mangle-alike" if a.replace(".", "__") == b.replace(".", "__") else "dotted-names-mangle-alike-up-to-suffix"
+    if "." in a or "." in b:
+        return "dotted-vs-suffixed-double-underscore"
     if b.rstrip("_") == a.rstrip("_"):
         import builtins
 
@@ -663,6 +897,8 @@ def judge(model, seed, npoints):
     ids = assigned_identifiers(src)
     for i in sorted({i for i in ids if ids.count(i) > 1}):
         who = [n for n, _ in fvars if key(n) == key(i)]
+        if len(who) > 2:  # the ones whose mangled form the identifier extends, the closest first
+            who = sorted((n for n in who if i.startswith(n.replace(".", "__"))), key=lambda n: -len(n.replace(".", "__")))[:2] + who
         if len(who) >= 2:
             viol.append(("symbol-collision:" + collision_kind(who[0], who[1]), "Python identifier %s is assigned for more than one of the Modelica variables %s\n%s" % (i, who, text), {}))
         else:
@@ -736,19 +972,20 @@ def _judge_assignment(model, obj, sym_of, ref, got, fvars, feqs, seed, npoints, 
     if len(obj.eqs) != len(feqs):
         return [("equation-count", "eqs has %d entries, the flat model has %d equations\n%s" % (len(obj.eqs), len(feqs), text), {})]
     names = [n for n, _ in fvars]
+    ints = getattr(model, "ints", ())
     rvals = [[] for _ in feqs]
     envs, reps = [], []
     for p in range(npoints):
-        env = grid_env(names, p, seed)
+        env = grid_env(names, p, seed, ints)
         envs.append(env)
         rep = {tsym: sympy.Float(env["time"])}
         for n in names:
             s = sym_of[n]
-            rep[s] = sympy.Float(env[n])
+            rep[s] = sympy.Integer(env[n]) if n in ints else sympy.Float(env[n])
             if s.args:  # a function of time
                 rep[sympy.Derivative(s, tsym)] = sympy.Float(env["der(%s)" % n])
         reps.append(rep)
-        env2 = {k: v * (1 + 1e-11) for k, v in env.items()}
+        env2 = {k: v if k in ints else v * (1 + 1e-11) for k, v in env.items()}
         for i, e in enumerate(feqs):
             try:
                 l, r = M.evn(e[1], env), M.evn(e[2], env)
@@ -816,12 +1053,13 @@ def _num(expr, rep):
 # jobs
 
 
-def _defined(tree, seed, npoints):
+def _defined(tree, seed, npoints, fam="expr"):
     """Does the reference give the expression a real finite value on some grid point (else nothing is compared)?"""
+    ints = ("n",) if fam == "lit" else ()
     for p in range(npoints):
-        env = grid_env(FRAME, p, seed)
+        env = grid_env(FRAME + list(ints), p, seed, ints)
         try:
-            a, b = M.evn(tree, env), M.evn(tree, {k: v * (1 + 1e-11) for k, v in env.items()})
+            a, b = M.evn(tree, env), M.evn(tree, {k: v if k in ints else v * (1 + 1e-11) for k, v in env.items()})
             if abs(a - b) <= 1e-5 * max(1.0, abs(a)):
                 return True
         except X.Undefined:
@@ -833,22 +1071,22 @@ FRAME = ["x", "v", "p", "c", "u", "y"]
 
 
 def job_expr(job):
-    items, seed, npoints = job
-    judged = sum(1 for t, _, _ in items if _defined(t, seed, npoints))
-    res = judge(expr_model(items), seed, npoints)
+    items, seed, npoints, fam = job
+    judged = sum(1 for t, _, _ in items if _defined(t, seed, npoints, fam))
+    res = judge(expr_model(items, fam), seed, npoints)
     out = []
     if res and res[0][0] == "ok":
         return {"viol": [], "judged": judged}
     # attribute to single expressions: re-run each alone (a pack fails as a whole when the module does not compile)
     for it in items:
-        r1 = judge(expr_model([it]), seed, npoints)
+        r1 = judge(expr_model([it], fam), seed, npoints)
         if r1 and r1[0][0] == "ok":
             continue
         for sig, msg, extra in r1:
             t, mode, orient = it
             g = grouping(t)
             sig2 = "%s:%s" % (sig, ("needs-parens:" + g) if g else "no-parens-needed:" + _shape(t)) if sig == "wrong-value" else "%s:expr" % sig
-            out.append((sig2, "`%s` (%s parentheses, %s): %s" % (pexpr(t, mode), mode, orient, msg), {"family": "expr", "tree": t, "mode": mode, "orient": orient}))
+            out.append((sig2, "`%s` (%s parentheses, %s): %s" % (pexpr(t, mode), mode, orient, msg), {"family": fam, "tree": t, "mode": mode, "orient": orient}))
     return {"viol": out, "judged": judged}
 
 
@@ -892,6 +1130,24 @@ def _name_feature(n):
     return tag + ("_" if n.endswith("_") else "")
 
 
+def job_mangle(job):
+    spec, seed, npoints = job
+    res = judge(TModel(spec), seed, npoints)
+    if res and res[0][0] == "ok":
+        return {"viol": []}
+    out = []
+    for sig, msg, extra in res:
+        blame = spec
+        for k in range(0, len(spec)):  # smallest part of the case that fails the same clause
+            hit = [sub for sub in itertools.combinations(spec, k) if any(s == sig for s, _, _ in judge(TModel(sub), seed, npoints))]
+            if hit:
+                blame = hit[0]
+                break
+        sig2 = "%s:mangle[%s]" % (sig, ",".join(sorted(n for n, _ in blame)))
+        out.append((sig2, "flat variables %s: %s" % (["%s:%s" % i for i in spec], msg), {"family": "mangle", "spec": [list(i) for i in spec]}))
+    return {"viol": out}
+
+
 def job_struct(job):
     devs, seed, npoints = job
     model = struct_model(devs)
@@ -932,16 +1188,25 @@ def run(ctx):
     for mode in ("min", "full"):
         sel = [c for c in ecases if c[1] == mode]
         packs += [sel[i : i + PACK] for i in range(0, len(sel), PACK)]
+    lcases, lmax, lskipped = lit_cases(ctx.tier)
+    lcases = lcases[rot:] + lcases[:rot]
+    lpacks = []
+    for mode in ("min", "full"):
+        sel = [c for c in lcases if c[1] == mode]
+        lpacks += [sel[i : i + PACK] for i in range(0, len(sel), PACK)]
     ncases, kn, pool = names_cases(ctx.tier)
+    mcases, mnames = mangle_cases(ctx.tier)
     scases, ks = struct_cases(ctx.tier)
     # warm the parent before the workers fork (ANTLR's lazily built DFA, jinja2, sympy caches are inherited)
     judge(names_model({}), ctx.seed, 1)
     judge(expr_model(packs[0]), ctx.seed, 1)
     with common.Pool(init=_init) as pool_:
-        re_ = pool_.map(job_expr, [(p, ctx.seed, npoints) for p in packs], chunksize=4)
+        re_ = pool_.map(job_expr, [(p, ctx.seed, npoints, "expr") for p in packs], chunksize=4)
+        rl = pool_.map(job_expr, [(p, ctx.seed, npoints, "lit") for p in lpacks], chunksize=4)
         rn = pool_.map(job_names, [(r, ctx.seed, npoints) for r in ncases], chunksize=8)
+        rm = pool_.map(job_mangle, [(c, ctx.seed, npoints) for c in mcases], chunksize=8)
         rs = pool_.map(job_struct, [(d, ctx.seed, npoints) for d in scases], chunksize=4)
-    for r in re_ + rn + rs:
+    for r in re_ + rl + rn + rm + rs:
         for sig, msg, case in r["viol"]:
             ctx.violation(sig, msg, case)
     texts = {(pexpr(t, m), o) for t, m, o in ecases}
@@ -949,14 +1214,33 @@ def run(ctx):
     needs = {(pexpr(t, m), o) for t, m, o in ecases if grouping(t)}
     nontriv_n = [r for r in ncases if name_relations(r.values())]
     judged = sum(r["judged"] for r in re_)
+    ltexts = {(pexpr(t, m), o) for t, m, o in lcases}
+    nontriv_l = {(pexpr(t, m), o) for t, m, o in lcases if has_literal(t) and nops(t) >= 1}
+    lsigned = {(pexpr(t, m), o) for t, m, o in lcases if "signed-literal" in "".join(_pairs(t, []))}
+    ljudged = sum(r["judged"] for r in rl)
+    nontriv_m = [c for c in mcases if any("." in n or n in RESERVED_BASES for n, _ in c) or (len(c) > 1 and related([n for n, _ in c]))]
+    mrel = [c for c in mcases if len(c) > 1 and related([n for n, _ in c])]
     ctx.sample({"family": "expr", "model": expr_model(packs[0]).text()})
     ctx.sample({"family": "expr", "model": expr_model(packs[len(packs) // 2]).text()})
     ctx.sample({"family": "names", "renamed": ncases[len(ncases) // 2], "model": names_model(ncases[len(ncases) // 2]).text()})
     ctx.sample({"family": "struct", "deviations": scases[-1], "model": struct_model(scases[-1]).text()})
+    ctx.sample({"family": "lit", "model": expr_model(lpacks[len(lpacks) // 3], "lit").text()})
+    ctx.sample({"family": "mangle", "spec": mcases[-1], "model": TModel(mcases[-1]).text()})
     ctx.coverage.update(
         {
-            "evaluations": len(ecases) + len(ncases) + len(scases),
-            "distinct_nontrivial": len(nontriv_e) + len(nontriv_n) + len(scases),
+            "evaluations": len(ecases) + len(lcases) + len(ncases) + len(mcases) + len(scases),
+            "distinct_nontrivial": len(nontriv_e) + len(nontriv_l) + len(nontriv_n) + len(nontriv_m) + len(scases),
+            "lit_texts": len(ltexts),
+            "lit_nontrivial": len(nontriv_l),
+            "lit_with_signed_literal_operand": len(lsigned),
+            "lit_judged_on_grid": ljudged,
+            "lit_models": len(lpacks),
+            "lit_max_operator_nodes": lmax,
+            "lit_left_out_constant_subexpression_undefined": lskipped,
+            "mangle_models": len(mcases),
+            "mangle_nontrivial": len(nontriv_m),
+            "mangle_competing_pairs_and_triples": len(mrel),
+            "mangle_names": mnames,
             "expr_texts": len(texts),
             "expr_with_grouping": len(nontriv_e),
             "expr_needing_parentheses": len(needs),
@@ -980,7 +1264,22 @@ def run(ctx):
             "grouping exists). names: base model (x v p c u y + component a with a.b, a.k) with every assignment of <= %d "
             "distinct names of the pool (three names: of the smaller pool %s) to distinct variables; non-trivial = some name is a Python builtin / on pymoca's clash "
             "list / t, or two names are a suffixed twin or a dotted / double-underscore twin. struct: base model under every set of "
-            "<= %d compatible deviations out of %d (all non-trivial: each changes a list or a template branch)." % (nmax, PACK, kn, DEEP_POOL, ks, len(DEVS)),
+            "<= %d compatible deviations out of %d (all non-trivial: each changes a list or a template branch). lit: every tree "
+            "with <= %d operator nodes over + - * / ^ and unary - +, every leaf position taking each of p (real values), n "
+            "(integer values 2 3 -2 4 on the grid), 2, 0.5 -- trees with a literal-only sub-expression that has no real value "
+            "left out -- as right-hand side (<= 1 node also left), both parenthesisations; non-trivial = has a literal and an "
+            "operator. mangle: names = every plain or dotted spelling (any depth) that '.' -> '__' turns into one of %s, and %s with "
+            "one%s underscore(s) appended; models that have exactly a frame x p u y and: one name in every category (state, "
+            "algebraic, parameter, constant, top-level also input, output); two names%s in every pair of categories%s; three "
+            "competing names in every triple of categories%s; nested components are generated as the dots require; "
+            "non-trivial = some name is dotted or reserved, or the names compete."
+            % (
+                nmax, PACK, kn, DEEP_POOL, ks, len(DEVS), lmax,
+                MANGLE_TARGETS[:4] if ctx.tier == "quick" else MANGLE_TARGETS, RESERVED_BASES, "" if ctx.tier == "quick" else " / two",
+                " that compete for one identifier (same mangled form up to trailing underscores)" if ctx.tier == "quick" else "",
+                " (other pairs: one rotating pair of categories)" if ctx.tier == "quick" else "",
+                "" if ctx.tier == "quick" else " (other triples: one rotating triple of categories)",
+            ),  # fmt: skip
         }
     )
     ctx.assumptions += [
@@ -997,8 +1296,10 @@ def run(ctx):
 def replay(case):
     install_runtime()
     fam = case.get("family")
-    if fam == "expr":
-        r = job_expr(([(_tuplify(case["tree"]), case["mode"], case["orient"])], 0, 4))
+    if fam in ("expr", "lit"):
+        r = job_expr(([(_tuplify(case["tree"]), case["mode"], case["orient"])], 0, 4, fam))
+    elif fam == "mangle":
+        r = job_mangle((tuple(tuple(i) for i in case["spec"]), 0, 4))
     elif fam == "names":
         r = job_names((case["ren"], 0, 4))
     else:
